@@ -295,6 +295,20 @@ def _discharge(pc, goal, inputs, timeout_ms=10000, fallbacks=True):
         if la is not None:
             la["time_s"] = time.time() - t0
             return la
+    if z3.is_false(g):
+        # the clause failed at the Python level on this path: the only question is whether the path is feasible.
+        # One call of the full solver with a generous budget (verdicts must not flip when the machine is busy).
+        s = z3.Solver()
+        s.set("timeout", 6 * timeout_ms)
+        s.add(*pc)
+        r = hard_check(s, 6 * timeout_ms)
+        if r == z3.unsat:
+            return dict(status="discharged", backend="z3-5.1(api)", time_s=time.time() - t0, model=None)
+        if r == z3.sat:
+            m = s.model()
+            m2 = _realizable_units_model(s, inputs, timeout_ms)
+            return dict(status="refuted", backend="z3-5.1(api)", time_s=time.time() - t0,
+                        model=model_dict(m2 or m, inputs), units_realizable=bool(m2))
     s = z3.Solver()
     s.set("timeout", max(500, timeout_ms // 5))
     for p in pc:
